@@ -660,3 +660,141 @@ func (g *Grammar) resolve(x int, c *Cell) {
 	}
 	c.Why = "unexpected candidate pair"
 }
+
+// ---------------------------------------------------------------------------
+// cover sentences
+
+// CoverSentences returns, for every rule that can occur in a derivation of a
+// sentence, one short sentence (as terminal ids) whose derivation uses that
+// rule: the minimal left/right context of the rule's left side, with every
+// other symbol expanded to its shortest yield. Sentences longer than maxLen
+// are dropped; duplicates are removed.
+func (g *Grammar) CoverSentences(maxLen int) [][]int {
+	const inf = 1 << 20
+	n := len(g.Names)
+	minLen := make([]int, n)
+	minRule := make([]int, n)
+	for i := range minLen {
+		if g.IsNT[i] {
+			minLen[i] = inf
+		} else {
+			minLen[i] = 1
+		}
+		minRule[i] = -1
+	}
+	for ch := true; ch; {
+		ch = false
+		for ri, r := range g.Rules {
+			l := 0
+			for _, x := range r.R {
+				l += minLen[x]
+				if l >= inf {
+					l = inf
+					break
+				}
+			}
+			if l < minLen[r.L] {
+				minLen[r.L], minRule[r.L] = l, ri
+				ch = true
+			}
+		}
+	}
+	var expand func(x int, depth int) []int
+	expand = func(x int, depth int) []int {
+		if !g.IsNT[x] {
+			return []int{x}
+		}
+		if minRule[x] < 0 || depth > 64 {
+			return nil
+		}
+		var out []int
+		for _, y := range g.Rules[minRule[x]].R {
+			out = append(out, expand(y, depth+1)...)
+		}
+		return out
+	}
+	expandSeq := func(xs []int) []int {
+		var out []int
+		for _, x := range xs {
+			out = append(out, expand(x, 0)...)
+		}
+		return out
+	}
+	seqLen := func(xs []int) int {
+		l := 0
+		for _, x := range xs {
+			l += minLen[x]
+			if l >= inf {
+				return inf
+			}
+		}
+		return l
+	}
+	// minimal context of every nonterminal
+	type ctx struct {
+		pre, suf []int
+		ok       bool
+	}
+	cx := make([]ctx, n)
+	cx[g.Rules[0].L] = ctx{ok: true}
+	for ch := true; ch; {
+		ch = false
+		for _, r := range g.Rules {
+			if !cx[r.L].ok {
+				continue
+			}
+			for i, x := range r.R {
+				if !g.IsNT[x] || seqLen(r.R[:i]) >= inf || seqLen(r.R[i+1:]) >= inf {
+					continue
+				}
+				pre := append(append([]int(nil), cx[r.L].pre...), expandSeq(r.R[:i])...)
+				suf := append(expandSeq(r.R[i+1:]), cx[r.L].suf...)
+				if !cx[x].ok || len(pre)+len(suf) < len(cx[x].pre)+len(cx[x].suf) {
+					cx[x] = ctx{pre: pre, suf: suf, ok: true}
+					ch = true
+				}
+			}
+		}
+	}
+	seen := map[string]bool{}
+	var out [][]int
+	for ri, r := range g.Rules {
+		if ri == 0 || !cx[r.L].ok || seqLen(r.R) >= inf {
+			continue
+		}
+		s := append(append(append([]int(nil), cx[r.L].pre...), expandSeq(r.R)...), cx[r.L].suf...)
+		if len(s) > maxLen {
+			continue
+		}
+		k := fmt.Sprint(s)
+		if !seen[k] {
+			seen[k] = true
+			out = append(out, s)
+		}
+	}
+	return out
+}
+
+// ---------------------------------------------------------------------------
+// the reference table as a parser (for grammars whose conflicts are all
+// resolved by the rule of C04)
+
+// AllJudged reports whether every cell of the table has a prescribed action.
+func (t *Table) AllJudged() bool {
+	for _, cells := range t.Cells {
+		for _, c := range cells {
+			if !c.Judged {
+				return false
+			}
+		}
+	}
+	return true
+}
+
+// Action returns the prescribed action of state s on terminal x (or EOF).
+func (t *Table) Action(s, x int) Act {
+	if c := t.Cells[s][x]; c != nil && c.Judged {
+		return c.Want
+	}
+	return Act{Kind: Error}
+}
